@@ -634,7 +634,53 @@ func ruleORDSORT(c *Ctx) []Obligation {
 			return true
 		})
 	})
-	o2 := Obligation{Key: "globalOrder appended in the top-level entity loop", Verdict: OK, Detail: fmt.Sprintf("%d of %d append site(s) inside `range old.TopLevelEntities()`", inLoop, appendSites)}
+	// an append site in a helper counts when every call of the helper (in package asm) lies in that loop
+	if inLoop != appendSites {
+		inLoopBody := func(pos token.Pos) bool {
+			found := false
+			c.eachFunc(pkgASM, func(p *packages.Package, fd *ast.FuncDecl, fn *types.Func) {
+				ast.Inspect(fd.Body, func(n ast.Node) bool {
+					if rs, ok := n.(*ast.RangeStmt); ok && strings.Contains(exprString(rs.X), "TopLevelEntities()") && rs.Body.Pos() <= pos && pos < rs.Body.End() {
+						found = true
+					}
+					return true
+				})
+			})
+			return found
+		}
+		c.eachFunc(pkgASM, func(p *packages.Package, fd *ast.FuncDecl, helper *types.Func) {
+			sites := 0
+			ast.Inspect(fd.Body, func(m ast.Node) bool {
+				if as, ok := m.(*ast.AssignStmt); ok && !inLoopBody(as.Pos()) {
+					for _, l := range as.Lhs {
+						if mapFieldName(info, l) == "oldIndex.globalOrder" {
+							sites++
+						}
+					}
+				}
+				return true
+			})
+			if sites == 0 {
+				return
+			}
+			calls, inside := 0, 0
+			c.eachFunc(pkgASM, func(p2 *packages.Package, fd2 *ast.FuncDecl, _ *types.Func) {
+				ast.Inspect(fd2.Body, func(n ast.Node) bool {
+					if call, ok := n.(*ast.CallExpr); ok && calleeOf(p2.TypesInfo, call) == helper {
+						calls++
+						if inLoopBody(call.Pos()) {
+							inside++
+						}
+					}
+					return true
+				})
+			})
+			if calls > 0 && calls == inside {
+				inLoop += sites
+			}
+		})
+	}
+	o2 := Obligation{Key: "globalOrder appended in the top-level entity loop", Verdict: OK, Detail: fmt.Sprintf("%d of %d append site(s) inside `range old.TopLevelEntities()` (directly or in a helper called only from there)", inLoop, appendSites)}
 	if inLoop != appendSites {
 		o2.Verdict = VIOL
 	}
